@@ -180,18 +180,112 @@ def check_string(toks, res):
         res.label('non-trivial:string')
 
 
+# the display-math environments of LaTeX / amsmath and the text-in-math macros that the default
+# context declares (list written from the LaTeX side; a name the context does not declare at all
+# is skipped, a declared one must switch the mode)
+MATH_ENVIRONMENTS = ['equation', 'equation*', 'eqnarray', 'eqnarray*', 'align', 'align*', 'gather',
+                     'gather*', 'flalign', 'flalign*', 'multline', 'multline*', 'alignat',
+                     'alignat*', 'split']
+TEXT_MACROS = ['text', 'textrm', 'textbf', 'textit', 'textsf', 'texttt', 'textsc', 'textsl',
+               'mbox', 'textup', 'textmd']
+ENV_HOSTS = [('top-level', 'A %s B', False), ('in-group', '{A %s} B', False),
+             ('in-text-in-math', '$a \\text{b %s c} d$', False),
+             ('in-itemize', '\\begin{itemize}\\item %s\\end{itemize}', False),
+             ('in-font-argument', '\\textbf{%s}', False),
+             ('in-display-math', '\\[ a %s b \\]', True)]
+
+
+def check_tables(res):
+    from pylatexenc.latexwalker import get_default_latex_context_db
+    from ..treedump import walk
+    db = get_default_latex_context_db()
+
+    def modes(nodes):
+        return [bool(n.parsing_state.in_math_mode) for x in nodes if x is not None
+                for n in walk(x) if kind(n) != 'list']
+    for name in MATH_ENVIRONMENTS:
+        if db.get_environment_spec(name, raise_if_not_found=False) is None or \
+                not getattr(db.get_environment_spec(name), 'environmentname', ''):
+            continue
+        arg = '{2}' if name.startswith('alignat') else ''
+        envsrc = '\\begin{%s}%s x \\alpha {y} \\end{%s}' % (name, arg, name)
+        for host, tpl, outer_math in ENV_HOSTS:
+            src = tpl % envsrc
+            res.case()
+            case = {'kind': 'table', 'src': src, 'what': 'env:' + name, 'host': host}
+            try:
+                w, nl = px.parse(src, None, tolerant=False)
+            except Exception as e:
+                res.fail(exc_key(e), exc_detail(e) + ' on %r' % src, case)
+                continue
+            envs = [n for n in walk(nl) if kind(n) == 'environment' and n.environmentname == name]
+            if len(envs) != 1:
+                res.fail('c10:table:environment-not-found', '%r' % src, case)
+                continue
+            env = envs[0]
+            body = modes([env.nodelist])
+            args = modes(list(env.nodeargd.argnlist) if env.nodeargd is not None else [])
+            if not body or not all(body):
+                res.fail('c10:math-environment-body-not-in-math-mode:' + ('starred' if name.endswith('*')
+                                                                          else 'plain'),
+                         'body of %s in %r records modes %r' % (name, src, body), case)
+            if args and any(a != outer_math for a in args):
+                res.fail('c10:math-environment-argument-mode', 'arguments of %s in %r record math '
+                         'mode %r, the enclosing mode is %r' % (name, src, args, outer_math), case)
+            if bool(env.parsing_state.in_math_mode) != outer_math:
+                res.fail('c10:math-environment-node-mode', '%s node itself in %r records %r'
+                         % (name, src, env.parsing_state.in_math_mode), case)
+            res.nontriv(src)
+        res.label('table:math-environment')
+    for name in TEXT_MACROS + ['ensuremath']:
+        want = (name == 'ensuremath')
+        for src, outer in (('$a \\%s{b \\alpha {c}} d$' % name, True),
+                           ('\\[ \\frac{\\%s{b c}}{2} \\]' % name, True),
+                           ('a \\%s{b c} d' % name, False),
+                           ('\\begin{equation}\\%s{b $c$ d}\\end{equation}' % name, True)):
+            res.case()
+            case = {'kind': 'table', 'src': src, 'what': 'macro:' + name}
+            try:
+                w, nl = px.parse(src, None, tolerant=False)
+            except Exception as e:
+                res.fail(exc_key(e), exc_detail(e) + ' on %r' % src, case)
+                continue
+            ms = [n for n in walk(nl) if kind(n) == 'macro' and n.macroname == name]
+            if len(ms) != 1 or ms[0].nodeargd is None or not ms[0].nodeargd.argnlist:
+                res.fail('c10:table:macro-argument-not-found', '%r' % src, case)
+                continue
+            grp = ms[0].nodeargd.argnlist[0]
+            inner = [bool(n.parsing_state.in_math_mode) for n in grp.nodelist
+                     if n is not None and kind(n) in ('chars', 'macro', 'group')]
+            if not inner or any(m != want for m in inner):
+                res.fail('c10:%s-argument-mode' % ('ensuremath' if want else 'text-macro'),
+                         'contents of the argument of \\%s in %r record math mode %r, expected %r'
+                         % (name, src, inner, want), case)
+            if bool(ms[0].parsing_state.in_math_mode) != outer:
+                res.fail('c10:table:macro-node-mode', '\\%s itself in %r records %r'
+                         % (name, src, ms[0].parsing_state.in_math_mode), case)
+            res.nontriv(src)
+        res.label('table:mode-switching-macro')
+    res.exhaustive = True
+
+
 def plan(tier, seed):
     L, ndocs = (6, 3200) if tier == 'quick' else (7, 64000)
     shards = [('str', L, k) for k in range(NSHARDS)]
     shards += [('docs', ndocs // NSHARDS, seed * 1000 + k) for k in range(NSHARDS)]
+    shards += [('tables',)]
     return {'shards': shards, 'bounds': {'string_len': L, 'alphabet': MATH9, 'documents': ndocs,
                                          'document_depth': 5},
             'required_classes': ['str:both-accept', 'str:both-reject', 'dollar-run',
                                  'non-trivial:string', 'non-trivial:nested-modes', 'doc:parsed',
-                                 'switches:3']}
+                                 'switches:3', 'table:math-environment',
+                                 'table:mode-switching-macro']}
 
 
 def run_shard(shard, res):
+    if shard[0] == 'tables':
+        check_tables(res)
+        return
     if shard[0] == 'str':
         _, L, k = shard
         for toks in soups.enum_tokens(MATH9, L, k, NSHARDS):
@@ -204,6 +298,15 @@ def run_shard(shard, res):
 
 
 def check_case(case, res):
+    if case['kind'] == 'table':
+        r2 = Result()
+        check_tables(r2)
+        for key, l in r2.failures.items():
+            for f in l:
+                if f['case'].get('src') == case['src']:
+                    res.fail(key, f['detail'], case)
+        res.case()
+        return
     if case['kind'] == 'str':
         check_string(case['tokens'], res)
     else:
@@ -211,6 +314,8 @@ def check_case(case, res):
 
 
 def minimise(case, key):
+    if case['kind'] == 'table':
+        return case
     if case['kind'] == 'str':
         def pred(t):
             r = Result()
